@@ -150,6 +150,27 @@ def r10_2(ctx):
     ctx.end()
 
 
+def r10_2b(ctx):
+    ctx.begin("R10.2b", "the per-step absence update reaches every worker and facility exactly once", floor=1)
+    g = ctx.repo.method(ORG, "check_update_state_from_absence_time_list")
+    I = mk_interp(ctx, inline=lambda call, callee, depth: True, max_depth=4)
+    outs = I.run_function(g)
+
+    def m(ev):
+        if isinstance(ev, Store) and ev.attr == "state" and ev.cls in (WORKER, FACILITY):
+            return ev.cls
+        return None
+    for st, ex in outs:
+        fo = FanOut(ctx, m)
+        c = fo.counts(st.trace)
+        ctx.instance(construct(g, "traversal"), sample={k: sorted(v) for k, v in c.items()})
+        for cls in (WORKER, FACILITY):
+            if c.get(cls, {0}) != {1}:
+                ctx.violation(construct(g, f"absence-update:{cls}"), g.loc(), f"the per-step absence update sets the state of a {cls} {sorted(c.get(cls, {0}))} time(s) (expected exactly once for every one): "
+                              f"a resource that is skipped keeps last step's state and works through its own absence")
+    ctx.end()
+
+
 def r10_3(ctx):
     ctx.begin("R10.3", "record_state(working=False): ABSENCE for workers/facilities; WORKING shown as READY for tasks/components", floor=4)
     for cls, enum in SIBS + [(TASK, TS), (COMPONENT, CS)]:
@@ -181,5 +202,8 @@ def r10_4(ctx):
 def run(ctx):
     r10_1(ctx)
     r10_2(ctx)
+    r10_2b(ctx)
     r10_3(ctx)
     r10_4(ctx)
+    from .C04 import r4_1
+    r4_1(ctx)  # an individually absent resource is never newly allocated: allocation sites require state FREE
